@@ -3,7 +3,7 @@ from hypothesis import strategies as st
 from ..runner import Outcome
 from .. import ops as O, eqv, faults
 from ..doc import replay_history
-from ..hist import HistoryRun, bundle_sig, judge_state_diff, is_cycle_error_pair, col_kind
+from ..hist import HistoryRun, bundle_sig, judge_state_diff, is_cycle_error_pair, col_kind, stale_cells_of
 from ..invariants import schema_mismatch
 
 ID = 'C04'
@@ -34,6 +34,20 @@ def strategy(tier):
   return st.fixed_dictionaries({'h': O.history('schema', 0, 8), 'target': target})
 
 
+def emitted_cells_were_stale(hr, stored, log_pos):
+  try:
+    stale, _ = stale_cells_of(hr.doc.log, log_pos)
+  except Exception:
+    return False
+  for a in stored:
+    rows = a[2] if isinstance(a[2], list) else [a[2]]
+    for col in a[3]:
+      for r in rows:
+        if (a[1], col, r) not in stale:
+          return False
+  return True
+
+
 def check_after_failure(hr, out, before, uas, how, log_pos):
   """Returns True if a violation was recorded."""
   sig = bundle_sig(uas)
@@ -54,7 +68,11 @@ def check_after_failure(hr, out, before, uas, how, log_pos):
     bad2, labels2 = judge_state_diff(before, now2, hr.doc.log, log_pos)
     only_formula_updates = all(a[0] in ('UpdateRecord', 'BulkUpdateRecord') and not a[1].startswith('_grist_') and
                                all(col_kind(before, a[1], col) in ('formula', 'helper') for col in a[3]) for a in c.stored)
-    if bad2 is None and only_formula_updates:
+    if bad2 is None and only_formula_updates and not formula_only and emitted_cells_were_stale(hr, c.stored, log_pos):
+      # the values were restored by the rollback; what Calculate re-emits are cells that were already stale
+      # before the failed call (C05 matter) and got recalculated because the rollback marked them dirty
+      out.cls('stale-cells-recalculated-after-rollback(charged to C05)')
+    elif bad2 is None and only_formula_updates:
       # one root cause (see known finding): the rollback leaves formula cells dirty; they are only
       # recalculated (and re-emitted) by the next call
       out.fail('C04:formula-cells-dirty-after-rollback',
@@ -63,11 +81,12 @@ def check_after_failure(hr, out, before, uas, how, log_pos):
                  uas, how, 'different values' if formula_only else 'the same values', len(c.stored)),
                {'diff': bad[1] if bad else None, 'calc_stored': c.stored[:4]})
       return True
-    kinds = sorted(set(a[0] for a in c.stored))
-    out.fail('C04:calculate-emits-after-failure:%s:%s:%s' % (how.split('#')[0], '+'.join(kinds), sig),
-             'Calculate after failed %r (%s) emitted %d stored actions / state differs' % (uas, how, len(c.stored)),
-             {'calc_stored': c.stored[:4], 'diff': (bad2 or bad or [None, None])[1]})
-    return True
+    else:
+      kinds = sorted(set(a[0] for a in c.stored))
+      out.fail('C04:calculate-emits-after-failure:%s:%s:%s' % (how.split('#')[0], '+'.join(kinds), sig),
+               'Calculate after failed %r (%s) emitted %d stored actions / state differs' % (uas, how, len(c.stored)),
+               {'calc_stored': c.stored[:4], 'diff': (bad2 or bad or [None, None])[1]})
+      return True
   sm = schema_mismatch(hr.doc)
   if sm:
     out.fail('C04:schema-mismatch:%s:%s:%s' % (how.split('#')[0], sm[0], sig),
